@@ -116,6 +116,17 @@ impl Vm {
             }
         };
         trace!("entry: \n{}", self.decompile_text(&lambda));
+        // An accepted form abandons an evaluation that is still suspended between two
+        // run_count slices: drop its frames as a failed evaluation does. Otherwise the new
+        // program runs on top of them and every abandoned evaluation leaves its stack
+        // depth behind for good.
+        if self.stack.get_sp() != 0 {
+            self.stack.clear();
+            *self.stack.get_sp_mut() = 0;
+            self.bp = 0;
+            self.ep = usize::MAX;
+            self.acc = VCell::undefined();
+        }
         let lambda = self.heap.put(lambda);
         self.ip.0 = lambda.as_ptr().unwrap();
         self.ip.1 = 0;
